@@ -29,7 +29,7 @@ class SweepObserver(ModelObserver):
 class C13(ModelCheck):
     id = "C13"
     profile = "sweeper"
-    profiles = ["sweeper", "sweeper", "mixed", "closers"]
+    profiles = ["sweeper", "sweeper", "mixed", "closers", "shared"]
     usage_mode = "any"
     rule = ("Histories from profiles sweeper/mixed/closers (any apps, sides, connections, reopen-after-close, crowding, errors; "
             "advance ops in which the first database access of a sweep is made to fail with a transient OperationalError), "
